@@ -25,6 +25,7 @@ _SEC = [
 ]
 _ENTRY = re.compile(r"^  \[([DAC])\] (.*)$")
 _NAME = re.compile(r"\b((?:fn|var)\d+)\b")
+_ID = re.compile(r"\b((?:fn|var)\d+)(?:@@?(V\d+))?")
 _SYMNAME = re.compile(r"^\s*\[[DAC]\]\s+'?(?:function |method )?.*?([A-Za-z_][\w@.]*)'?\s*(?:\{.*\})?$")
 
 
@@ -33,7 +34,7 @@ def N(x):
 
 
 def parse(text):
-    r = {"summary": {}, "sections": {}, "entries": {}, "names": {}, "soname": False, "arch": False, "lines": len(text.splitlines()),
+    r = {"summary": {}, "sections": {}, "entries": {}, "names": {}, "ids": {}, "soname": False, "arch": False, "lines": len(text.splitlines()),
          "leaf": {}, "unknown_headers": []}
     cur = None
     for ln in text.splitlines():
@@ -81,6 +82,7 @@ def parse(text):
                 r["sections"][name] = r["sections"].get(name, 0) + int(m.group(1))
                 r["entries"].setdefault(name, 0)
                 r["names"].setdefault(name, [])
+                r["ids"].setdefault(name, [])
                 hit = True
                 break
         if hit:
@@ -94,6 +96,9 @@ def parse(text):
             r["entries"][cur] += 1
             nm = _NAME.findall(m.group(2))
             r["names"][cur].append(nm[0] if nm else m.group(2)[:80])
+            ids = _ID.findall(m.group(2))
+            if ids:
+                r["ids"][cur].append([ids[-1][0], ids[-1][1]])     # the symbol id is the last one on the line ({...} part)
     return r
 
 
